@@ -142,12 +142,17 @@ def run(ck):
             if g:
                 ps[0] = rng.choice(g)
         srcs = []
+        same = (k >= 2 and rng.random() < 0.25)       # every source fed with exactly the same voltage (an in-phase array)
         for p in ps:
             mag = 10 ** rng.uniform(-2, 2)
             ph = rng.uniform(-math.pi, math.pi)
             v = complex(mag * math.cos(ph), mag * math.sin(ph)) if rng.random() < .8 else complex(mag, 0)
+            if same and srcs:
+                v = srcs[0][1]
             m.register_source(Excitation(v), p)
             srcs.append((p, v))
+        if same:
+            ck.count('equal_voltages')
         m.compute()
         kinds = set()
         for p in set(ps):
